@@ -56,6 +56,19 @@ CHECKS['C02'] = dict(
     note=TB + 'Model (Operator.v) is hand-written and tied per instance; hash-randomisation clause is tested, not proved (CPython runtime).',
     technique='Coq theorems (dict/BSF bijection) + kernel-evaluated faithful-image check on dumped tables')
 
+CHECKS['C17'] = dict(
+    category='proof',
+    text=('Unbounded Coq theorems: the exhaustive search is complete (visits every operator of weight <= b), the CSS reduction '
+          '(a logical of a CSS code has a pure-X or pure-Z logical part of no larger weight), checker soundness '
+          '(distance_ok[_css] c d w = true -> Distance c d, quantifying over all 4^n operators), and a deformed code has the distance '
+          'of the undeformed code. Kernel-evaluated: the search below the reported d + a weight-d logical witness on every dumped '
+          'undeformed instance whose estimated cost fits the tier; deformed instances tied by the image check. Instances too costly '
+          'are listed in the evidence, not claimed.'),
+    design_ref='DESIGN.md section 5 C17',
+    note=TB + 'Distance is stated as in the property (commutes with all stabilizers, non-trivial logical action); equivalence with '
+         '"not in the stabilizer group" is C04. Packing certificates of DESIGN section 5 were replaced by the verified search.',
+    technique='Coq theorem (complete weight-bounded search + CSS reduction) evaluated in the kernel on dumped tables')
+
 NOT_APPLICABLE = {}
 
 PENDING = ['C02', 'C03', 'C04', 'C05', 'C06', 'C07', 'C08', 'C09', 'C10', 'C11', 'C12', 'C13', 'C14', 'C15',
